@@ -26,6 +26,13 @@ func (s *ByteBlockSource) Size() uint64 {
 	return uint64(len(s.Source))
 }
 func (s *ByteBlockSource) ReadBlock(off uint64, sz int) ([]byte, error) {
+	if off >= uint64(len(s.Source)) {
+		return nil, io.EOF
+	}
+	if off+uint64(sz) > uint64(len(s.Source)) {
+		// Like the file block source: a short block at the end.
+		sz = int(uint64(len(s.Source)) - off)
+	}
 	return s.Source[off : off+uint64(sz)], nil
 }
 
@@ -116,6 +123,9 @@ func NewReader(src BlockSource, name string) (*Reader, error) {
 	if err != nil {
 		return nil, err
 	}
+	if len(headBlock) < headerSize(1)+1 {
+		return nil, fmt.Errorf("reftable: file too short (%d bytes)", src.Size())
+	}
 	if bytes.Compare(headBlock[:4], magic[:]) != 0 {
 		return nil, fmt.Errorf("reftable: got magic %q, want %q", headBlock[:4], magic)
 	}
@@ -123,6 +133,10 @@ func NewReader(src BlockSource, name string) (*Reader, error) {
 	version := int(headBlock[4])
 	if version != 1 && version != 2 {
 		return nil, fmt.Errorf("reftable: unsupported version %d", version)
+	}
+
+	if src.Size() < uint64(headerSize(version)+footerSize(version)) || len(headBlock) < headerSize(version)+1 {
+		return nil, fmt.Errorf("reftable: file too short (%d bytes)", src.Size())
 	}
 
 	r := &Reader{
@@ -135,6 +149,9 @@ func NewReader(src BlockSource, name string) (*Reader, error) {
 	footBlock, err := src.ReadBlock(r.size, footerSize(version))
 	if err != nil {
 		return nil, err
+	}
+	if len(footBlock) < footerSize(version) {
+		return nil, fmt.Errorf("reftable: short read of footer")
 	}
 
 	if 0 != bytes.Compare(headBlock[:headerSize(version)], footBlock[:headerSize(version)]) {
@@ -155,6 +172,11 @@ func NewReader(src BlockSource, name string) (*Reader, error) {
 		return nil, err
 	}
 
+	switch r.header.HashID {
+	case SHA1ID, SHA256ID:
+	default:
+		return nil, fmt.Errorf("reftable: unknown hash ID %q", r.header.HashID)
+	}
 	r.hashSize = r.header.HashID.Size()
 	r.header.BlockSize &= (1 << 24) - 1
 
